@@ -235,7 +235,7 @@ func runTask(t *Task, media map[string][]byte, sched Yielder, prior map[int]*Res
 			n = 1
 		}
 		for i := 0; i < n; i++ {
-			w := &SimWriter{sched: sched, task: t.ID}
+			w := &SimWriter{sched: sched, task: t.ID, failAt: t.WriteFail}
 			err := fit.Encode(w, f, archOf(t.Arch))
 			setErr(err)
 			res.Outs = append(res.Outs, w.buf)
